@@ -132,3 +132,32 @@ if FLOAT_MODEL == 'real':
   _core._PATCH_REGISTRATIONS[int] = _int_sym
   STUBS['int_of_real'] = 'int(symbolic real) = symbolic truncation toward zero (z3 ToInt) instead of realisation'
   ENABLED = tuple(ENABLED) + ('int_of_real',)
+
+
+# numpy scalar predicates called on Python scalars by attrs validators (np.isfinite(value) in trial.Metric/Measurement):
+# numpy cannot take a symbolic number; on symbolic arguments use the documented scalar meaning.
+try:
+  import numpy as _np
+
+  def _sym(x):
+    with NoTracing():
+      return isinstance(x, CrossHairValue)
+
+  def _np_isfinite(x, *a, **kw):
+    if _sym(x):
+      return x == x and x != float('inf') and x != float('-inf')
+    with NoTracing():
+      return _np.isfinite(x, *a, **kw)
+
+  def _np_isnan(x, *a, **kw):
+    if _sym(x):
+      return x != x
+    with NoTracing():
+      return _np.isnan(x, *a, **kw)
+
+  _core._PATCH_REGISTRATIONS[_np.isfinite] = _np_isfinite
+  _core._PATCH_REGISTRATIONS[_np.isnan] = _np_isnan
+  STUBS['numpy_scalars'] = 'np.isfinite / np.isnan on a symbolic Python scalar = their documented scalar meaning'
+  ENABLED = tuple(ENABLED) + ('numpy_scalars',)
+except Exception:  # noqa
+  pass
